@@ -55,6 +55,30 @@ def make(bootstrap):
             bump("end")
             return self.mid + 1
 
+        @spec_property(cache=True, overridable=False, invalidated_by=["x"])
+        def po(self):  # cached but NOT overridable
+            bump("po")
+            return self.x * 3
+
+        bal: int  # managed attribute masked by a validating property: the raw write can fail AFTER the type check
+
+        @property
+        def bal(self):
+            return self.__dict__.get("_bal", 0)
+
+        @bal.setter
+        def bal(self, v):
+            if v < 0:
+                raise ValueError("negative balance")
+            self.__dict__["_bal"] = v
+
+        audit: str = Attr(default="", invalidated_by=["bal"])
+
+        @spec_property(cache=True, invalidated_by=["bal"])
+        def digest(self):
+            bump("digest")
+            return self.bal + 1
+
         @spec_property(cache=True, invalidated_by=["um"])
         def pu(self):  # depends on an unmanaged attribute
             bump("pu")
@@ -77,19 +101,19 @@ def make(bootstrap):
 
 
 FAM = {"eager": make(True), "lazy": make(False)}
-DERIVED = ["p", "q", "star", "sx", "end", "pu"]
+DERIVED = ["p", "q", "star", "sx", "end", "pu", "po", "digest"]
 
 
 def expected(m, cname):
     x, w, xs = m.x, m.w, m.xs
     um = m.__dict__.get("um", 0)
-    d = {"p": x * 2, "q": x * 2 + 1, "star": x + w, "sx": len(xs), "end": x + 101, "pu": um * 3}
+    d = {"p": x * 2, "q": x * 2 + 1, "star": x + w, "sx": len(xs), "end": x + 101, "pu": um * 3, "po": x * 3, "digest": m.bal + 1}
     if cname == "GS":
         d["r"] = w * 5
     return d
 
 
-MUTS = ["setattr_x", "delattr_x", "with_x", "transform_x", "reset_x", "update_x", "setattr_w", "with_w", "update_xw", "with_x_item", "setattr_um", "setattr_z", "bad_x", "bad_w", "reset_all", "without_x_item_missing"]
+MUTS = ["bad_bal", "setattr_bal", "setattr_x", "delattr_x", "with_x", "transform_x", "reset_x", "update_x", "setattr_w", "with_w", "update_xw", "with_x_item", "setattr_um", "setattr_z", "bad_x", "bad_w", "reset_all", "without_x_item_missing"]
 
 
 def make_h(fam, cname, mut):
@@ -101,7 +125,8 @@ def make_h(fam, cname, mut):
         if oz:
             o.z = z1  # assigned after construction: must survive unrelated mutations
         derived = DERIVED + (["r"] if cname == "GS" else [])
-        for bit, name in ((rp, "p"), (rq, "q"), (rs, "star"), (rsx, "sx"), (rend, "end"), (rpu, "pu")):
+        o.audit = "checked"  # assigned value of an attribute invalidated_by bal
+        for bit, name in ((rp, "p"), (rq, "q"), (rs, "star"), (rsx, "sx"), (rend, "end"), (rpu, "pu"), (rp, "po"), (rq, "digest")):
             if bit:
                 getattr(o, name)  # fills the cache
         if cname == "GS" and rp:
@@ -148,7 +173,16 @@ def make_h(fam, cname, mut):
                 o.z = v
                 m, changed = o, {"z"}
             elif mut == "reset_all":
-                m, changed = o.reset(**kw), {"x", "w", "z", "xs"}
+                m, changed = o.reset(**kw), {"x", "w", "z", "xs", "bal"}
+            elif mut == "setattr_bal":
+                assume(inplace and v >= 0)
+                o.bal = v
+                m, changed = o, {"bal"}
+            elif mut == "bad_bal":  # passes the type check, the raw write is refused by the property setter
+                failed_expected = True
+                assume(inplace)
+                o.bal = -5
+                m = o
             elif mut == "bad_x":
                 failed_expected = True
                 m = o.with_x(pick(["s", None, 1.5], v % 3), **kw)
@@ -176,6 +210,7 @@ def make_h(fam, cname, mut):
             for n in derived:
                 check((n in o.__dict__) == cached_before[n], "mutations that fail discard nothing", f"{tag}/failed-mutation-discarded-{n}")
             check(o.z is z_before or o.z == z_before, "mutations that fail discard nothing (invalidated_by attribute)", f"{tag}/failed-mutation-reset-z")
+            check(o.audit == "checked", "mutations that fail discard nothing (attribute invalidated_by the attribute whose write failed)", f"{tag}/failed-mutation-reset-audit")
             return "failed-mutation"
         check(exc is None, "a well-typed mutation must not raise", f"{tag}/unexpected-{type(exc).__name__}", lambda: repr(exc))
         # (a) the next read of every derived value equals the getter on current state
@@ -190,7 +225,11 @@ def make_h(fam, cname, mut):
             check(m.z is z_before or m.z == z_before, "mutating unrelated attributes discards nothing", f"{tag}/z-discarded", lambda: f"{m.z!r} vs {z_before!r}")
         # (b) unrelated mutations discard nothing: a cache that was filled and does not depend on the changed attributes
         # is served without calling the getter again
-        deps = {"p": {"x"}, "q": {"x"}, "sx": {"xs"}, "end": {"x"}, "pu": {"um"}, "r": {"w"}}
+        if "bal" in changed:
+            check(m.audit == "", "an attribute declared invalidated_by is back at its default", f"{tag}/audit-not-reset")
+        elif mut != "reset_all":
+            check(m.audit == "checked", "mutating unrelated attributes discards nothing", f"{tag}/audit-discarded")
+        deps = {"p": {"x"}, "q": {"x"}, "sx": {"xs"}, "end": {"x"}, "pu": {"um"}, "r": {"w"}, "po": {"x"}, "digest": {"bal"}}
         if inplace and mut != "reset_all":
             for n, dd in deps.items():
                 if n in derived and cached_before[n] and not (dd & changed):
